@@ -96,7 +96,7 @@ def body_scalar(case):
     a = build.make_tt(case['a'])
     s = gen.make_scalar(case['s'])
     da = dense.contract(a.cores)
-    scale = dense.scale_of(a.cores) * max(abs(s), 1.0)
+    scale = dense.scale_of(a.cores) * (abs(s) if abs(s) > 0 else 1.0)          # (relative to the size of the scalar, whatever it is)
     da = np.array(da)
     for name, f in (('A*s', lambda: a * s), ('s*A', lambda: s * a), ('A*s again', lambda: a * s)):
         r = f()
